@@ -6,11 +6,12 @@ PROPS = [json.loads(l)["id"] for l in open(os.path.join(HERE, "properties.jsonl"
 
 CHECKS = {
  "C06": dict(
-   category="proof",
-   text="Every ArMember file operation (read, readline, readlines, seek, tell) and the archive indexing code are "
-        "verified function by function against contracts that say 'behaves as io.BytesIO over data[offset:end]', "
-        "for all archives, all positions, all sizes and every incoming position of the shared file object; the VCs are "
-        "generated from the AST of the real debian/arfile.py on every run and discharged by z3/cvc5.",
+   category="other",
+   text="Every ArMember file operation (read, readline, readlines, seek, tell) is verified function by function against "
+        "contracts that say 'behaves as io.BytesIO over data[offset:end]', for all archives, all positions, all sizes, every "
+        "incoming position of the shared file object and the three ways a member gets its file object; the VCs are generated "
+        "from the AST of the real debian/arfile.py on every run and discharged by z3/cvc5. The archive indexing code "
+        "(__collect_members, from_file, getmember) is covered by a bounded stand-in only, hence 'other' and not 'proof'.",
    design="DESIGN.md §5 C06",
    note="Trusted: the speclib model of binary file objects (read/readline/seek/tell over (data,pos)), first-occurrence "
         "search axioms, int() of header fields as an uninterpreted function, open(name,'rb') yields the file's bytes "
